@@ -336,6 +336,7 @@ ASSUME NegationRewritingSound ==       \* every operator -> negated operator sub
                       /\ Not3(Lt3(a, b)) = Ge3(a, b) /\ Not3(Ge3(a, b)) = Lt3(a, b)
                       /\ Not3(Gt3(a, b)) = Le3(a, b) /\ Not3(Le3(a, b)) = Gt3(a, b)
   /\ \A a \in IV : Not3(B(a = NULL)) = B(a # NULL)
+  /\ \A a, b \in IV : Eq3(a, b) = Eq3(b, a) /\ Ne3(a, b) = Ne3(b, a)            \* = and != may have their operands swapped (mssql does)
 ASSUME Associativity ==
   /\ \A a, b, c \in IV : Add3(Add3(a, b), c) = Add3(a, Add3(b, c)) /\ Mul3(Mul3(a, b), c) = Mul3(a, Mul3(b, c))    \* flattened by the library
   /\ \E a, b, c \in -2..2 : Sub3(Sub3(a, b), c) # Sub3(a, Sub3(b, c))                                               \* must never be flattened
